@@ -43,17 +43,18 @@ def cases(tier, seed):
     nh = 60 if tier == "quick" else 900
     names = list(T)
     for h in range(nh):
-        tname = names[h % len(names)]
+        F_h = gen.feat(101, h)          # independent feature choices per case (gen.feat)
+        tname = names[F_h("len_names@45", len(names))]
         table = T[tname]
         n = len(table)
-        mode = "symm" if h % 3 else "square"
+        mode = "symm" if F_h("m3@48", 3) else "square"
         px1 = gen.random_store(rng, n, mode, maxval=4)
-        px2 = gen.random_store(rng, n, mode, maxval=4) if h % 5 else []
+        px2 = gen.random_store(rng, n, mode, maxval=4) if F_h("m5@50", 5) else []
         total = len(px1) + len(px2)
         nuc = rng.randint(1, 5)
         zoom = []
         if tname in ("one_fixed", "fixed_short", "two_fixed"):
-            zoom = [2, 4, 8] if h % 2 else [4, 2, 6]
+            zoom = [2, 4, 8] if F_h("m2@55", 2) else [4, 2, 6]
         yield "csr.colls", {"producer": "history", "table": table, "mode": mode, "px1": px1, "px2": px2,
                             "chunks2": rsplit(len(px2), rng.randint(1, 3), rng),
                             "mergebuf": rng.choice([1, 2, 3, 5, 10 ** 6]), "k": rng.choice([2, 3, 5]),
@@ -62,9 +63,10 @@ def cases(tier, seed):
                             "zoom": zoom, "expect": 8 + len(set(zoom))}
     # (4) text loaders
     for h in range(24 if tier == "quick" else 300):
-        table = T[names[h % len(names)]]
-        mode = "symm" if h % 2 else "square"
-        yield "csr.colls", {"producer": "load", "table": table, "mode": mode, "fmt": "coo" if h % 4 < 2 else "bg2",
+        F_h = gen.feat(102, h)          # independent feature choices per case (gen.feat)
+        table = T[names[F_h("len_names@64", len(names))]]
+        mode = "symm" if F_h("m2@65", 2) else "square"
+        yield "csr.colls", {"producer": "load", "table": table, "mode": mode, "fmt": "coo" if F_h("m4@66", 4) < 2 else "bg2",
                             "px1": gen.random_store(rng, len(table), mode, maxval=5), "chunk": rng.choice([1, 2, 1000]),
                             "expect": 1}
     # (5) end to end across the 1 000 000-row block boundary of the index builder
